@@ -2,6 +2,7 @@ package receiver
 
 import (
 	"bytes"
+	"errors"
 	"fmt"
 	"io"
 	"io/fs"
@@ -270,6 +271,12 @@ func (rt *Transfer) recvGenerator(idx int, f *File) error {
 	}
 
 	if os.IsNotExist(err) {
+		return requestFullFile()
+	}
+	if rt.Opts.DryRun && errors.Is(err, syscall.ENOTDIR) {
+		// A parent is not a directory: a real run would have replaced it by
+		// the directory from the file list by now, so in a dry run the file
+		// counts as not existing yet.
 		return requestFullFile()
 	}
 	if err != nil {
